@@ -321,6 +321,50 @@ def r08_9(ctx):
            'after reset_signals only the soft-timeout signal and SIGINT are bound')
 
 
+def r08_12(ctx):
+    ctx.rule('R08.12', 'the signal Process.terminate() sends is the one the workers install their exit handler for '
+                       '(common.TERM_SIGNAL, which REMAP_SIGTERM can move), not a literal', floor=2)
+    m = ctx.model
+    fi = m.func('popen_fork:Popen.terminate')
+    sent = []
+
+    def collect(f, binding, depth=0):
+        for c in [x for x in walk_own(f.node) if isinstance(x, ast.Call)]:
+            cal = f.callee(c)
+            if cal == 'os.kill' and len(c.args) >= 2:
+                a = c.args[1]
+                sent.append((f, c, binding.get(a.id, f.canon(a)) if isinstance(a, ast.Name) else f.canon(a)))
+            elif cal.startswith('self.') and cal.count('.') == 1 and depth < 2 and f.cls is not None:
+                g = m.method(f.cls, cal.split('.')[1])
+                if g is not None and g is not f and g.name not in ('wait', 'poll'):
+                    P = g.positional_params()[1:]
+                    b = {P[i]: f.canon(a) for i, a in enumerate(c.args) if i < len(P)}
+                    b.update({k.arg: f.canon(k.value) for k in c.keywords if k.arg})
+                    collect(g, b, depth + 1)
+    collect(fi, {})
+    q.need(sent, 'Popen.terminate sends no signal')
+    tsig = m.func('common:_shutdown_cleanup')     # anchor: the receiver side lives in common
+    for (f, c, sig) in sent:
+        ok = sig.split('.')[-1] == 'TERM_SIGNAL'
+        ctx.ob('R08.12', 'Popen.terminate:sends-TERM_SIGNAL', ok, f, c,
+               'os.kill(pid, TERM_SIGNAL)' if ok else
+               'terminate() sends `%s`; with REMAP_SIGTERM set the workers ignore SIGTERM and handle TERM_SIGNAL: '
+               'terminate(), shrink() and the hard time limit then signal nobody' % sig)
+    # the pool's own senders use the same constant
+    n_pool = 0
+    for qn, f in sorted(m.funcs.items()):
+        if f.module.name != 'pool':
+            continue
+        for (n, c) in q.calls(f, ('_kill', 'os.kill')):
+            if len(c.args) >= 2 and 'TERM' in ast.unparse(c.args[1]).upper():
+                n_pool += 1
+                names = {f.canon(x).split('.')[-1] for x in ast.walk(c.args[1])
+                         if isinstance(x, (ast.Name, ast.Attribute))}
+                ok = 'TERM_SIGNAL' in names and 'SIGTERM' not in names
+                ctx.ob('R08.12', '%s:sends-TERM_SIGNAL' % f.qual.split(':')[1], ok, f, c, ast.unparse(c))
+    q.need(n_pool >= 1, 'pool.py: no sender of the termination signal found')
+
+
 def r08_11(ctx):
     ctx.rule('R08.11', 'a termination signal that arrived while a task was running is honoured even when the task '
                        'swallowed the SystemExit it raised: before the worker takes another job it looks at the '
@@ -350,6 +394,12 @@ def r08_11(ctx):
 
 
 def run(ctx):
+    # the finalizer got the worker list at construction: it terminates the workers on *that* list
+    from .c07 import r07_2
+    from ..report import Only
+    r07_2(Only(ctx, ('rebind',), floor=1, doc='the lists and tables handed to the helper threads and to the finalizer '
+                                              'are mutated in place, never re-bound'))
+    r08_12(ctx)
     r08_11(ctx)
     r08_9(ctx)
     # terminate() ends by joining every worker without a timeout
@@ -379,6 +429,9 @@ def run(ctx):
 _P ='billiard/pool.py'
 _C = 'billiard/common.py'
 MUTANTS = [
+    ('terminate-sends-a-literal-SIGTERM', 'billiard/popen_fork.py', "                os.kill(self.pid, TERM_SIGNAL)\n", "                os.kill(self.pid, signal.SIGTERM)\n", 'R08.12'),
+    ('reaper-rebinds-the-worker-list', _P, "                del self._pool[i]\n                del self._poolctrl[worker.pid]\n",
+     "                self._pool = [w for w in self._pool if w is not worker]\n                del self._poolctrl[worker.pid]\n", 'R07.2'),
     ('swallowed-termination-not-honoured', _P, "                    if _should_have_exited[0]:\n                        # the termination-signal handler ran while the task\n                        # was running and the task swallowed the SystemExit:\n                        # honour the signal now, do not take another job.\n                        raise SystemExit()\n", "", 'R08.11'),
     ('handlers-installed-before-the-initializer', _P,
      "        if self.initializer is not None:\n            self.initializer(*self.initargs)\n\n        # Make sure all exiting signals call finally: blocks.\n        # This is important for the semaphore to be released.\n        reset_signals(full=self.sigprotection)\n",
